@@ -423,7 +423,17 @@ impl<'ast> Visit<'ast> for Indexer {
     }
     fn visit_item_struct(&mut self, s: &'ast syn::ItemStruct) {
         let vis = vis_of(s, |v, s| v.visit_item_struct(s));
-        self.plain_item("struct", s.ident.to_string(), &s.attrs, s.span(), vis, json!({}));
+        // D3: fields with inherited (private) visibility — position where `pub ` is inserted
+        let priv_fields: Vec<Value> = s
+            .fields
+            .iter()
+            .filter(|f| matches!(f.vis, syn::Visibility::Inherited))
+            .map(|f| match &f.ident {
+                Some(i) => json!(start(i.span())),
+                None => json!(start(f.ty.span())),
+            })
+            .collect();
+        self.plain_item("struct", s.ident.to_string(), &s.attrs, s.span(), vis, json!({"private_fields": priv_fields}));
     }
     fn visit_item_enum(&mut self, s: &'ast syn::ItemEnum) {
         let vis = vis_of(s, |v, s| v.visit_item_enum(s));
